@@ -28,7 +28,7 @@ SPEC = {
     "rule": ("base programs from G_isa (no value-dependent sizes) x 8 re-renderings each; literal/expression overlap "
              "programs; non-trivial = base program that assembles with >= 2 instructions and whose renderings were all "
              "compared, or a failing base whose renderings all failed; distinct = distinct base source"),
-    "monitors": ["rendering-equality", "literal-beats-expression", "glued-rule-token"],
+    "monitors": ["glued-suffix-case", "rendering-equality", "literal-beats-expression", "glued-rule-token"],
     "min_nontrivial": {"quick": 400, "thorough": 10000},
     "assumptions": ["symbols are case-sensitive, mnemonics and literal operands are not (as documented)"],
 }
@@ -149,6 +149,38 @@ def overlap_program(rng):
     return "\n".join(lines) + "\n", want
 
 
+SUFFIX_RULES = [("delay", "ms", 0x55), ("wait", "us", 0x66), ("ldh", "h", 0x77), ("rep", "x", 0x88), ("tick", "t", 0x99)]
+
+
+def suffix_program(rng):
+    """Rules whose parameter is followed by a glued literal word (`delay {n}ms`): the operand ends where that literal
+    begins, in whatever letter case the instruction spells it. Returns (lower-case source, recased source, expected hex)."""
+    rules = rng.sample(SUFFIX_RULES, rng.randint(1, 3))
+    head = ["#ruledef", "{"]
+    for mn, suf, op in rules:
+        head.append("    %s {n}%s => 0x%02x @ n`8" % (mn, suf, op))
+        if rng.random() < 0.4:
+            head.append("    %s {n} => 0x%02x @ n`16" % (mn, (op + 1) & 0xff))     # a less literal rule for the same mnemonic
+    head.append("}")
+    head.append("k9 = %d" % rng.randint(0, 200))
+    k9 = int(head[-1].split("=")[1])
+    low, rec, want = [], [], ""
+    for _ in range(rng.randint(2, 8)):
+        mn, suf, op = rng.choice(rules)
+        kind = rng.choice(["dec", "dec", "sym", "hex"]) if suf in ("ms", "us") else rng.choice(["dec", "dec", "sym"])
+        v = rng.randint(0, 255)
+        text = str(v) if kind == "dec" else ("0x%x" % v).replace("a", "4") if kind == "hex" else "k9"
+        if kind == "hex":
+            v = int(text, 16)
+        if kind == "sym":
+            v = k9
+        recase = lambda w: "".join(c.upper() if rng.random() < 0.6 else c for c in w)
+        low.append("%s %s%s" % (mn, text, suf))
+        rec.append("%s %s%s" % (recase(mn), text, recase(suf) if rng.random() < 0.85 else suf))
+        want += "%02x%02x" % (op, v & 0xff)
+    return "\n".join(head + low) + "\n", "\n".join(head + rec) + "\n", want
+
+
 def glued_program(rng):
     """A rule spelled as one token (`callq`) must not match the two-token line `call q` that another rule
     (`call {p}`) matches; the repository's own test tests/rule_simple/err_whitespace.asm states the intent."""
@@ -182,6 +214,24 @@ def shard(ctx):
             elif not lib.ok(rec) or rec["out"]["hex"] != want:
                 ctx.violation("token-boundaries", {"kind": "blank-inside-a-rule-token-is-ignored"}, job, {"hex": want},
                               {"ok": lib.ok(rec), "hex": (rec.get("out") or {}).get("hex")})
+            continue
+        if rng.random() < 0.06:
+            low, rec, want = suffix_program(rng)
+            good = True
+            for which, src in (("lower", low), ("recased", rec)):
+                job = lib.asm_job({"main.asm": src}, want=["msgs"])
+                r = worker.run(job)
+                ctx.evaluated()
+                ctx.monitor("glued-suffix-case")
+                if lib.abnormal(r):
+                    ctx.excluded += 1
+                    good = False
+                elif not lib.ok(r) or r["out"]["hex"] != want:
+                    ctx.violation("rendering", {"kind": "literal-suffix-after-parameter", "spelling": which}, job, {"hex": want},
+                                  {"ok": lib.ok(r), "hex": (r.get("out") or {}).get("hex"), "msgs": lib.first_messages(r)})
+                    good = False
+            if good:
+                ctx.nontrivial_case(rec.encode())
             continue
         if rng.random() < 0.1:
             src, want = overlap_program(rng)
